@@ -9,7 +9,10 @@ from vf.explore import Stats
 from vf.common import coverage_from_stats
 from vf.values import trees, same, show
 
+import itertools
+
 PID = "C01"
+_FRESH = itertools.count(1001)       # numbers no earlier unit of this process has put on the wire
 POSITIONS = ["arg", "kwarg", "result", "batch", "stream", "attrset", "attrget"]
 
 
@@ -131,6 +134,30 @@ def run_config(unit):
             st.states.add(label)
             if len(st.samples) < 2 and not core:
                 st.samples.append({"serializer": sername, "compression": comp, "annotations": ann, "value": label, "arrives_as": show(m)})
+        # --- the mapping is a function of the value alone, not of what this process happened to send before: values that compare
+        #     equal (and hash alike) but are written differently - Decimal("n.10"), ("n.1"), ("n.100"), ... - are sent in one order
+        #     for a number n nobody has sent yet and in the opposite order for another fresh number m; up to renaming n<->m the images
+        #     must agree (a memo table keyed by equality would hand out the text of whichever form came first)
+        if si == 0:
+            import decimal as _decimal
+            n, m = next(_FRESH), next(_FRESH)
+            forms = ["%d.10", "%d.1", "%d.100", "%d.1000", "-%d.0", "-%d.00"]
+            for how in ("result", "arg"):
+                def image(text):
+                    v = _decimal.Decimal(text)
+                    if how == "result":
+                        return get_result(v)
+                    del echo.seen[:]
+                    r = attempt(lambda: proxy.echo(v))
+                    return ("ok", echo.seen[0][0][0]) if (r[0] == "ok" and echo.seen) else ("exc", "failed")
+                img_n = [image(f % n) for f in forms]
+                img_m = [image(f % m) for f in reversed(forms)][::-1]
+                st.points += 2 * len(forms)
+                for f, a, b in zip(forms, img_n, img_m):
+                    if show(a).replace(str(n), "#") != show(b).replace(str(m), "#"):
+                        V("mapping-depends-on-what-was-sent-before|Decimal|%s" % how, "Decimal(%r) arrives as %s when sent after its equal-valued variants but Decimal(%r) as %s when sent before them"
+                          % (f % n, show(a), f % m, show(b)), "Decimal-forms")
+                n, m = next(_FRESH), next(_FRESH)
         # --- serializer-level pairs on the same values (cheap): loadsCall(dumpsCall()) vs loads(dumps())
         ser = serializers.serializers[sername]
         for label, v, core in vals:
